@@ -134,7 +134,7 @@ func runSchedule(s rigSchedule) (snaps [][]byte, panicMsg string, stuck bool) {
 	queue := make([][]rigEvent, s.Cores)
 	next := 0
 	val := int8(1)
-	limit := 3000
+	limit := 3000 + 1000*len(evs) // queued requests of one core run one after the other
 	if len(evs) > 0 {
 		limit += evs[len(evs)-1].T
 	}
@@ -289,6 +289,26 @@ func rigSchedules(variant string) []rigSchedule {
 				// the same with the writer being a third sharer (upgrade Shared -> Modified)
 				evs2 := []rigEvent{{0, 1, "R", 64}, {1, 2, "R", 64}, {2, 0, "R", 64}, {400, 2, "W", 192}, {800, 1, "R", 196}, {802 + d, 0, k, 68}, {1600 + rep, 1, "R", 64}}
 				out = append(out, rigSchedule{Variant: variant, Cores: 3, Events: evs2})
+			}
+		}
+	}
+	// H. (MVP-8) more lines than the shared L3 holds (32 lines of 128 bytes), written and re-read by two cores
+	if variant == "mvp8-0" {
+		for shape := 0; shape < 3; shape++ {
+			for _, n := range []int{33, 36} {
+				var evs []rigEvent
+				for i := 0; i < n; i++ {
+					switch shape {
+					case 0:
+						evs = append(evs, rigEvent{i * 5, 0, "W", int32(i * 128)})
+					case 1:
+						evs = append(evs, rigEvent{i * 5, 0, "W", int32(i * 128)}, rigEvent{i*5 + 2, 1, "W", int32(i*128 + 64)})
+					case 2:
+						evs = append(evs, rigEvent{i * 5, 0, "W", int32(i*132 + 60)}, rigEvent{i*5 + 2, 1, "W", int32(i*132 + 124)}, rigEvent{i*5 + 3, 0, "R", int32(i*132 + 124)})
+					}
+				}
+				evs = append(evs, rigEvent{20000, 1, "R", 0}, rigEvent{20400, 1, "R", 128}, rigEvent{20800, 0, "R", 64})
+				out = append(out, rigSchedule{Variant: variant, Cores: 2, Events: evs, Tags: []string{"rig_l3_overflow"}})
 			}
 		}
 	}
@@ -555,7 +575,7 @@ func rigLiveness(r *Reporter) {
 			if pm != "" && !strings.Contains(pm, "is negative") {
 				sym, what = "panic", "panic: "+pm
 			} else if stuck {
-				sym, what = "hang", "requests still outstanding 3000 cycles after the last event"
+				sym, what = "hang", "requests still outstanding 3000 + 1000 x requests cycles after the last event"
 			}
 			if sym == "" {
 				return
